@@ -14,11 +14,12 @@ use std::collections::{BTreeMap, BTreeSet};
 use std::future::Future;
 use std::pin::Pin;
 use std::rc::Rc;
+use std::sync::{Arc, Mutex};
 use std::task::{Context, Poll};
 
 use p2panda_core::Topic;
 use p2panda_net::gossip::{GossipError, GossipHandle, GossipSubscription};
-use simcore::stepexec::{self, Policy, Step, StepExec};
+use simcore::stepexec::{self, Policy, StepExec};
 use simcore::{Budget, Property, Tier, ctx, ev, violation};
 use simworld::logworld::topic;
 
@@ -28,6 +29,7 @@ const SITE_WINDOW: &str = "Gossip::stream fast path: last handle dropped between
 const SITE_SLOW: &str = "Gossip::stream slow path: two concurrent calls for one topic both miss the fast path and both subscribe";
 const SITE_NONE: &str = "no window preemption and no concurrent slow path involved";
 
+#[allow(dead_code)] // held for their Drop
 enum Obj {
     Handle(GossipHandle),
     Sub(GossipSubscription),
@@ -37,35 +39,50 @@ struct Held {
     id: usize,
     topic: usize,
     obj: Obj,
+    /// The backing session of this handle has been determined (by publishing a marker).
+    checked: bool,
 }
+
+/// Activities parked at the H4 yield point (they hold the read lock on `senders`) -> topic. Shared
+/// with the yield future, which has to be `Send`.
+type Window = Arc<Mutex<BTreeMap<usize, usize>>>;
 
 #[derive(Default)]
 struct Model {
     pool: Vec<Held>,
     next_id: usize,
-    /// Activities parked at the H4 yield point (they hold the read lock on `senders`) -> topic.
-    in_window: BTreeMap<usize, usize>,
+    in_window: Window,
     /// Activities inside `Gossip::stream` -> (topic, blocked in `senders.read()` behind a queued writer).
     calling: BTreeMap<usize, (usize, bool)>,
     /// Activities whose slow path waits in `senders.write()`.
     writers_queued: BTreeSet<usize>,
-    /// Activities whose slow path has sent `Subscribe` and not finished yet -> topic.
-    slow_in_flight: BTreeMap<usize, usize>,
     /// Attribution per topic.
     window_drop: BTreeSet<usize>,
-    double_sub: BTreeSet<usize>,
     preempt_window: bool,
+    /// 0 = Subscribe answered at once, 1 = always late, 2 = late for a third of the calls.
+    hold_mode: u8,
 }
 
 impl Model {
     fn alive(&self, t: usize) -> usize {
         self.pool.iter().filter(|h| h.topic == t).count()
     }
-    fn site(&self, t: usize) -> &'static str {
+    /// Attribution of a stale / missing subscription behind a live handle.
+    fn site(&self, t: usize, concurrent_slow_paths: bool) -> &'static str {
         if self.window_drop.contains(&t) {
             SITE_WINDOW
-        } else if self.double_sub.contains(&t) {
+        } else if concurrent_slow_paths {
             SITE_SLOW
+        } else {
+            SITE_NONE
+        }
+    }
+    /// Attribution of two `Subscribe`s in a row (the window alone cannot produce them).
+    fn site_double(&self, t: usize, concurrent_slow_paths: bool) -> &'static str {
+        if concurrent_slow_paths {
+            SITE_SLOW
+        } else if self.window_drop.contains(&t) {
+            SITE_WINDOW
         } else {
             SITE_NONE
         }
@@ -81,6 +98,8 @@ struct StreamCall<F> {
     model: Rc<RefCell<Model>>,
     probe: Shared,
     started: bool,
+    /// The manager answers a `Subscribe` of this call only when the schedule releases it.
+    hold: bool,
 }
 
 impl<F: Future<Output = Result<GossipHandle, GossipError>>> Future for StreamCall<F> {
@@ -90,8 +109,16 @@ impl<F: Future<Output = Result<GossipHandle, GossipError>>> Future for StreamCal
         let act = self.act;
         self.probe.lock().expect("probe").current = Some((act, cx.waker().clone()));
         {
-            let mut m = self.model.borrow_mut();
+            let model = self.model.clone();
+            let mut m = model.borrow_mut();
             if !self.started {
+                // Will the manager answer a Subscribe of this call late? (value 0 = at once)
+                let hold = match m.hold_mode {
+                    0 => false,
+                    1 => true,
+                    _ => ctx::chance("hold.this.call", 1, 3),
+                };
+                self.hold = hold;
                 // tokio's RwLock is write-preferring: a reader arriving behind a queued writer waits.
                 let blocked = !m.writers_queued.is_empty();
                 let t = self.topic;
@@ -102,6 +129,7 @@ impl<F: Future<Output = Result<GossipHandle, GossipError>>> Future for StreamCal
             }
         }
         self.started = true;
+        self.probe.lock().expect("probe").hold = self.hold;
         let r = self.fut.as_mut().poll(cx);
         let mut m = self.model.borrow_mut();
         let mut p = self.probe.lock().expect("probe");
@@ -109,13 +137,13 @@ impl<F: Future<Output = Result<GossipHandle, GossipError>>> Future for StreamCal
             Poll::Ready(out) => {
                 m.calling.remove(&act);
                 m.writers_queued.remove(&act);
-                m.slow_in_flight.remove(&act);
-                m.in_window.remove(&act);
+                p.in_flight.retain(|(a, _)| *a != Some(act));
+                m.in_window.lock().expect("window").remove(&act);
                 p.replied.retain(|a| *a != act);
                 Poll::Ready(out)
             }
             Poll::Pending => {
-                if m.in_window.contains_key(&act) {
+                if m.in_window.lock().expect("window").contains_key(&act) {
                     // The window gate marked the park itself.
                 } else if p.replied.contains(&act) {
                     // `Subscribe` answered: the only await left is `senders.write()`.
@@ -124,12 +152,6 @@ impl<F: Future<Output = Result<GossipHandle, GossipError>>> Future for StreamCal
                     stepexec::mark_parked();
                 } else if p.holding(act) {
                     // The overlay has not answered our `Subscribe` yet.
-                    let t = self.topic;
-                    if m.slow_in_flight.values().any(|x| *x == t) && !m.slow_in_flight.contains_key(&act) {
-                        m.double_sub.insert(t);
-                        ctx::probe("concurrent_slow_paths_same_topic");
-                    }
-                    m.slow_in_flight.insert(act, t);
                     stepexec::mark_parked();
                 } else if m.calling.get(&act).map(|c| c.1).unwrap_or(false) {
                     ctx::probe("reader_parked_behind_queued_writer");
@@ -163,8 +185,8 @@ impl Property for C29Prop {
         match mode {
             0 => "interleaving at operation boundaries only, manager answers at once (fault-free)",
             1 => "preemption inside the check/clone window of Gossip::stream",
-            2 => "manager answers Subscribe late (other activities run while a slow path waits)",
-            _ => "window preemption and late Subscribe answers",
+            2 => "manager answers every Subscribe late (other activities run while a slow path waits)",
+            _ => "window preemption, and the manager answers a third of the Subscribe calls late",
         }
     }
     fn rule(&self) -> &'static str {
@@ -204,9 +226,8 @@ impl Property for C29Prop {
                     return;
                 }
             };
-            w.probe.lock().expect("probe").hold = hold;
             let topics: Vec<Topic> = (0..n_topics).map(|i| topic(i as u64)).collect();
-            let model = Rc::new(RefCell::new(Model { preempt_window, ..Default::default() }));
+            let model = Rc::new(RefCell::new(Model { preempt_window, hold_mode: match mode { 2 => 1, 3 => 2, _ => 0 }, ..Default::default() }));
 
             // H4 yield point = harness gate.
             {
@@ -220,17 +241,18 @@ impl Property for C29Prop {
                     if !model.borrow().preempt_window || !ctx::chance("preempt.window", 2, 3) {
                         return None;
                     }
-                    let model = model.clone();
                     let parks = 1 + ctx::choose("window.parks", 3);
-                    let fut: Pin<Box<dyn Future<Output = ()>>> = Box::pin(async move {
-                        let t = model.borrow().calling.get(&act).map(|c| c.0).unwrap_or(usize::MAX);
-                        model.borrow_mut().in_window.insert(act, t);
+                    let t = model.borrow().calling.get(&act).map(|c| c.0).unwrap_or(usize::MAX);
+                    let window = model.borrow().in_window.clone();
+                    // H0 wants a `Send` future: it owns only plain values and the shared window map.
+                    let fut: Pin<Box<dyn Future<Output = ()> + Send>> = Box::pin(async move {
+                        window.lock().expect("window").insert(act, t);
                         ctx::fault("preempt(gossip.stream.between_check_and_clone)");
                         ev!("  activity {act}: preempted between has_subscriptions() and guard.clone() (topic {t})");
                         for _ in 0..parks {
                             stepexec::gate().await;
                         }
-                        model.borrow_mut().in_window.remove(&act);
+                        window.lock().expect("window").remove(&act);
                         ev!("  activity {act}: resumes in the window, clones the guard");
                     });
                     Some(fut)
@@ -238,6 +260,11 @@ impl Property for C29Prop {
             }
 
             let mut ex = StepExec::new();
+            // Every park is classified exactly by `StreamCall` / the gates; what is left are replies
+            // from the address book thread and the probe actor. The executor's real-time safety net
+            // must not cut such a wait short on a loaded machine (that would be a timing-dependent
+            // schedule): make it a watchdog instead.
+            ex.fallback = std::time::Duration::from_secs(60);
             let users: Rc<RefCell<BTreeMap<usize, BTreeSet<usize>>>> = Rc::new(RefCell::new(BTreeMap::new()));
             for (a, n_ops) in ops_per_act.iter().copied().enumerate() {
                 let gossip = w.gossip.clone();
@@ -253,9 +280,12 @@ impl Property for C29Prop {
                         }
                         let pool_len = model.borrow().pool.len();
                         // value 0 = stream(topic 0)
-                        let op = if pool_len == 0 { 0 } else { ctx::choose("op", 7) };
+                        let mut op = if pool_len == 0 { 0 } else { ctx::choose("op", 7) };
+                        if pool_len >= 4 && op < 4 && ctx::chance("trim", 1, 2) {
+                            op = 6;
+                        }
                         match op {
-                            0 | 1 | 2 => {
+                            0 | 1 => {
                                 let t = ctx::choose("topic", topics.len());
                                 users.borrow_mut().entry(t).or_default().insert(a);
                                 if users.borrow()[&t].len() >= 2 {
@@ -266,13 +296,13 @@ impl Property for C29Prop {
                                 if alive == 0 && !probe.lock().expect("probe").events_for(&topics[t]).is_empty() {
                                     ctx::probe("stream_slow_path_after_all_dropped");
                                 }
-                                let call = StreamCall { act: a, topic: t, fut: Box::pin(gossip.stream(topics[t])), model: model.clone(), probe: probe.clone(), started: false };
+                                let call = StreamCall { act: a, topic: t, fut: Box::pin(gossip.stream(topics[t])), model: model.clone(), probe: probe.clone(), started: false, hold: false };
                                 match call.await {
                                     Ok(h) => {
                                         let mut m = model.borrow_mut();
                                         m.next_id += 1;
                                         let id = m.next_id;
-                                        m.pool.push(Held { id, topic: t, obj: Obj::Handle(h) });
+                                        m.pool.push(Held { id, topic: t, obj: Obj::Handle(h), checked: false });
                                         ev!("activity {a}: stream(topic {t}) -> handle h{id}");
                                     }
                                     Err(e) => {
@@ -280,7 +310,7 @@ impl Property for C29Prop {
                                     }
                                 }
                             }
-                            3 | 4 => {
+                            2 | 3 => {
                                 let mut m = model.borrow_mut();
                                 let handles: Vec<usize> = m.pool.iter().enumerate().filter(|(_, h)| matches!(h.obj, Obj::Handle(_))).map(|(i, _)| i).collect();
                                 if handles.is_empty() {
@@ -290,14 +320,14 @@ impl Property for C29Prop {
                                 let t = m.pool[i].topic;
                                 let from = m.pool[i].id;
                                 let new = match (&m.pool[i].obj, op) {
-                                    (Obj::Handle(h), 3) => Obj::Sub(h.subscribe()),
+                                    (Obj::Handle(h), 2) => Obj::Sub(h.subscribe()),
                                     (Obj::Handle(h), _) => Obj::Handle(h.clone()),
                                     _ => unreachable!(),
                                 };
                                 m.next_id += 1;
                                 let id = m.next_id;
-                                ev!("activity {a}: h{from}.{} -> {}{id} (topic {t})", if op == 3 { "subscribe()" } else { "clone()" }, if op == 3 { "s" } else { "h" });
-                                m.pool.push(Held { id, topic: t, obj: new });
+                                ev!("activity {a}: h{from}.{} -> {}{id} (topic {t})", if op == 2 { "subscribe()" } else { "clone()" }, if op == 2 { "s" } else { "h" });
+                                m.pool.push(Held { id, topic: t, obj: new, checked: false });
                             }
                             _ => {
                                 let victim = {
@@ -310,7 +340,8 @@ impl Property for C29Prop {
                                 ev!("activity {a}: drop {}{} (topic {t}, {left} left)", if matches!(victim.obj, Obj::Handle(_)) { "h" } else { "s" }, victim.id);
                                 if left == 0 {
                                     let mut m = model.borrow_mut();
-                                    if m.in_window.values().any(|x| *x == t) {
+                                    let someone_in_window = m.in_window.lock().expect("window").values().any(|x| *x == t);
+                                    if someone_in_window {
                                         m.window_drop.insert(t);
                                         ctx::probe("drop_of_last_handle_inside_check_clone_window");
                                         ev!("  -> the last reference for topic {t} goes away while another activity sits in the check/clone window");
@@ -338,27 +369,22 @@ impl Property for C29Prop {
                 }
                 let k = ctx::choose("sched", n);
                 if k < runnable.len() {
-                    let a = runnable[k];
-                    let alive_before = ex.is_alive(a);
-                    match ex.run_activity(a).await {
-                        Ok(Step::Ran { .. }) | Ok(Step::Cancelled { .. }) | Ok(Step::Quiescent) => {}
-                        Err(s) => {
-                            stalled = Some(s.name);
-                            break;
-                        }
+                    let fallbacks = ctx::with(|c| c.fallback_classifications);
+                    if let Err(s) = ex.run_activity(runnable[k]).await {
+                        stalled = Some(s.name);
+                        break;
                     }
-                    let _ = alive_before;
+                    if ctx::with(|c| c.fallback_classifications) > fallbacks {
+                        stalled = Some(format!("{} (no reply within 60 s real time)", ex.name(runnable[k])));
+                        break;
+                    }
                 } else {
                     let (act, t) = w.probe.lock().expect("probe").release(k - runnable.len());
                     let ti = topics.iter().position(|x| *x == t).unwrap_or(usize::MAX);
                     ev!("overlay answers the Subscribe of activity {act:?} for topic {ti}");
                 }
                 steps += 1;
-                if let Err(e) = w.barrier().await {
-                    violation("probe-failed", "harness probe actor", e);
-                    break;
-                }
-                check(&w.probe, &model.borrow(), &topics, &mut seen_log, false);
+                check(&w, &model, &topics, &mut seen_log, false).await;
                 if ctx::has_violation() || steps > 2_000 {
                     break;
                 }
@@ -372,22 +398,20 @@ impl Property for C29Prop {
                 let m = model.borrow();
                 violation("stream-never-returns", "activities parked forever inside Gossip::stream", format!("activities {unfinished:?} never finished; in window {:?}, writers queued {:?}, calling {:?}", m.in_window, m.writers_queued, m.calling));
             }
-            // ---- quiescence: drop whatever is left --------------------------------------------------
-            if !ctx::has_violation() {
-                drop(ex);
-                let rest: Vec<Held> = std::mem::take(&mut model.borrow_mut().pool);
-                for h in rest {
-                    ev!("end: drop {}{} (topic {})", if matches!(h.obj, Obj::Handle(_)) { "h" } else { "s" }, h.id, h.topic);
-                    drop(h);
-                }
-                match w.barrier().await {
-                    Ok(()) => check(&w.probe, &model.borrow(), &topics, &mut seen_log, true),
-                    Err(e) => violation("probe-failed", "harness probe actor", e),
-                }
-            } else {
-                drop(ex);
-                model.borrow_mut().pool.clear();
+            // ---- quiescence: drop whatever is left, one by one ------------------------------------
+            drop(ex);
+            while !ctx::has_violation() {
+                let next = {
+                    let mut m = model.borrow_mut();
+                    if m.pool.is_empty() { None } else { Some(m.pool.remove(0)) }
+                };
+                let Some(h) = next else { break };
+                ev!("end: drop {}{} (topic {})", if matches!(h.obj, Obj::Handle(_)) { "h" } else { "s" }, h.id, h.topic);
+                drop(h);
+                let last = model.borrow().pool.is_empty();
+                check(&w, &model, &topics, &mut seen_log, last).await;
             }
+            model.borrow_mut().pool.clear();
             p2panda_core::verif::clear_yield_handler();
             let world::World { gossip, book, store, actor, .. } = w;
             drop(gossip);
@@ -398,31 +422,90 @@ impl Property for C29Prop {
     }
 }
 
-/// The oracle over the probe's log. `alive` = handles + subscriptions the harness holds.
-fn check(probe: &Shared, m: &Model, topics: &[Topic], seen_log: &mut usize, quiescent: bool) {
-    let p = probe.lock().expect("probe");
-    for e in &p.log[*seen_log..] {
-        let (what, t) = match e {
-            ProbeEvent::Subscribe(t) => ("Subscribe", t),
-            ProbeEvent::Unsubscribe(t) => ("Unsubscribe", t),
-            ProbeEvent::Shutdown => continue,
-        };
-        ev!("    manager mailbox: {what}(topic {})", topics.iter().position(|x| x == t).unwrap_or(usize::MAX));
+/// The oracle. `alive` = handles + subscriptions the harness holds for a topic; the probe's log is
+/// in mailbox order; the session a handle is attached to is found out by publishing a marker
+/// through it and looking at which `Subscribe`'s to-gossip channel it arrives.
+async fn check(w: &world::World, model: &Rc<RefCell<Model>>, topics: &[Topic], seen_log: &mut usize, quiescent: bool) {
+    if let Err(e) = w.barrier().await {
+        violation("probe-failed", "harness probe actor", e);
+        return;
     }
-    *seen_log = p.log.len();
-    for (ti, t) in topics.iter().enumerate() {
-        let evs = p.events_for(t);
-        let show = |evs: &[ProbeEvent]| evs.iter().map(|e| if matches!(e, ProbeEvent::Subscribe(_)) { "S" } else { "U" }).collect::<Vec<_>>().join(" ");
-        if evs.windows(2).any(|w| matches!(w[0], ProbeEvent::Subscribe(_)) && matches!(w[1], ProbeEvent::Subscribe(_))) {
-            violation("subscribed-twice-without-unsubscribe", m.site(ti), format!("topic {ti}: manager log {}", show(&evs)));
+    let show = |evs: &[ProbeEvent]| evs.iter().map(|e| if matches!(e, ProbeEvent::Subscribe(_)) { "S" } else { "U" }).collect::<Vec<_>>().join(" ");
+    {
+        let p = w.probe.lock().expect("probe");
+        for e in &p.log[*seen_log..] {
+            let (what, t) = match e {
+                ProbeEvent::Subscribe(t) => ("Subscribe", t),
+                ProbeEvent::Unsubscribe(t) => ("Unsubscribe", t),
+                ProbeEvent::Shutdown => continue,
+            };
+            ev!("    manager mailbox: {what}(topic {})", topics.iter().position(|x| x == t).unwrap_or(usize::MAX));
         }
-        let alive = m.alive(ti);
-        let last_is_sub = matches!(evs.last(), Some(ProbeEvent::Subscribe(_)));
-        if alive > 0 && !last_is_sub {
-            violation("handle-without-active-subscription", m.site(ti), format!("topic {ti}: {alive} live handle(s)/subscription(s) but the manager log is {} (overlay left or never joined)", show(&evs)));
+        *seen_log = p.log.len();
+        let m = model.borrow();
+        for (ti, t) in topics.iter().enumerate() {
+            let evs = p.events_for(t);
+            let csp = p.concurrent_slow_paths.contains(t);
+            if csp {
+                ctx::probe("concurrent_slow_paths_same_topic");
+            }
+            if evs.windows(2).any(|w| matches!(w[0], ProbeEvent::Subscribe(_)) && matches!(w[1], ProbeEvent::Subscribe(_))) {
+                violation("subscribed-twice-without-unsubscribe", m.site_double(ti, csp), format!("topic {ti}: manager log {}", show(&evs)));
+            }
+            let alive = m.alive(ti);
+            let last_is_sub = matches!(evs.last(), Some(ProbeEvent::Subscribe(_)));
+            if alive > 0 && !last_is_sub {
+                violation("handle-not-backed-by-active-subscription", m.site(ti, csp), format!("topic {ti}: {alive} live handle(s)/subscription(s) but the manager log is {} (overlay left or never joined)", show(&evs)));
+            }
+            if quiescent && alive == 0 && last_is_sub {
+                violation("overlay-not-left-after-last-drop", m.site(ti, csp), format!("topic {ti}: every handle and subscription is dropped but the manager log ends with Subscribe: {}", show(&evs)));
+            }
         }
-        if quiescent && alive == 0 && last_is_sub {
-            violation("overlay-not-left-after-last-drop", m.site(ti), format!("topic {ti}: every handle and subscription is dropped but the manager log ends with Subscribe: {}", show(&evs)));
+    }
+    if ctx::has_violation() {
+        return;
+    }
+    let nth = |x: Option<usize>| x.map(|i| (i + 1).to_string()).unwrap_or_else(|| "none".into());
+    // New handles: which session are they attached to? It has to be the one of the last Subscribe.
+    let unchecked: Vec<(usize, usize)> = model
+        .borrow_mut()
+        .pool
+        .iter_mut()
+        .filter(|h| !h.checked)
+        .filter_map(|h| {
+            h.checked = true;
+            matches!(h.obj, Obj::Handle(_)).then_some((h.id, h.topic))
+        })
+        .collect();
+    for (id, ti) in unchecked {
+        let marker = format!("marker-h{id}").into_bytes();
+        {
+            // No activity runs during the check: the borrow may live across the await.
+            let m = model.borrow();
+            let Some(Held { obj: Obj::Handle(g), .. }) = m.pool.iter().find(|h| h.id == id) else { continue };
+            if let Err(e) = g.publish(marker.clone()).await {
+                violation("publish-failed", "GossipHandle::publish", format!("h{id}: {e}"));
+                continue;
+            }
+        }
+        let mut p = w.probe.lock().expect("probe");
+        let sessions: Vec<usize> = p.overlays.iter().enumerate().filter(|(_, o)| o.topic == topics[ti]).map(|(i, _)| i).collect();
+        let mut arrived: Option<usize> = None;
+        for (nth, i) in sessions.iter().enumerate() {
+            while let Ok(f) = p.overlays[*i].to_gossip_rx.try_recv() {
+                if f == marker {
+                    arrived = Some(nth);
+                }
+            }
+        }
+        let active = sessions.len().checked_sub(1);
+        let m = model.borrow();
+        if arrived != active {
+            violation(
+                "handle-not-backed-by-active-subscription",
+                m.site(ti, p.concurrent_slow_paths.contains(&topics[ti])),
+                format!("topic {ti}: a message published through the new handle h{id} arrives in the session opened by Subscribe no. {} of this topic, the active session is no. {} (manager log {})", nth(arrived), nth(active), show(&p.events_for(&topics[ti]))),
+            );
         }
     }
 }
